@@ -2,6 +2,8 @@ package sim
 
 import (
 	"fmt"
+	"os"
+	"syscall"
 	"time"
 )
 
@@ -19,6 +21,8 @@ func init() {
 		Assumptions: []string{"built with go1.26.8 (testing/synctest) instead of the pinned go1.24.1", "go-deadlock detection disabled", "real OS mtimes cannot follow the fake clock, hence SimDisk instead of afero.OsFs"},
 	})
 }
+
+var errTransientIO = &os.PathError{Op: "write", Path: "heartbeat", Err: syscall.EIO}
 
 func enumC17(tier string) [][]uint32 {
 	var out [][]uint32
@@ -46,10 +50,16 @@ func runC17(rc *RunCtx) {
 		stalls = ch.Pick("stalls", 3, 1) == 1
 	}
 	holdPeriods := []int{1, 2, 3, 10, 40, 120, 300}[ch.Pick("hold", 3, 3, 3, 3, 2, 1, 1)]
+	// one transient I/O error on one of the live holder's operations (the heartbeat is
+	// redundant - write then re-stamp - so a single failed operation must not make the lock look stale)
+	transientAt := -1
+	if mode == 0 && !stalls && ch.Pick("transient", 2, 1) == 1 {
+		transientAt = 2 + ch.Intn("transientat", 60)
+	}
 	if mode == 2 {
 		k = 16 + ch.Intn("ksteady", 400)
 	}
-	rc.Res.Config = fmt.Sprintf("mode=%d k=%d observers=%d stalls=%v hold=%dperiods", mode, k, nObs, stalls, holdPeriods)
+	rc.Res.Config = fmt.Sprintf("mode=%d k=%d observers=%d stalls=%v hold=%dperiods transientErrAtHolderOp=%d", mode, k, nObs, stalls, holdPeriods, transientAt)
 	var w *lockWorld
 	var sim *Sim
 	res := rc.Res
@@ -72,6 +82,20 @@ func runC17(rc *RunCtx) {
 		var observers []*lockClient
 		for i := 0; i < nObs; i++ {
 			observers = append(observers, w.addClient(2+i, ch.Intn("obsoverride", 2) == 1))
+		}
+		if transientAt >= 0 {
+			seen := 0
+			sim.Decide = func(op *Op) *Fault {
+				if op.Client != 1 {
+					return nil
+				}
+				seen++
+				if seen-1 == transientAt {
+					res.Fault("holder-transient-io-error")
+					return &Fault{Err: errTransientIO}
+				}
+				return nil
+			}
 		}
 		// death injection: after the holder's k-th operation effect
 		var died time.Time
